@@ -168,7 +168,7 @@ def run_cache(case, agg):
     except Refuse as r:
         refuse = str(r)
     with fresh_dir("c11") as d:
-        inp, oute, outc = (os.path.join(d, x) for x in ("in.suit", "out.suit", "cache.bin"))
+        inp, oute, outc = (os.path.join(d, impl.odd_name(st, ext, str(case)[:200])) for st, ext in (("in", "suit"), ("out", "suit"), ("cache", "bin")))
         open(inp, "wb").write(b)
         inplace = case["i"] % 7 == 3
         if inplace:
